@@ -1556,27 +1556,44 @@ func mutatesParams(fn *ssa.Function) []bool {
 // and calls that hand a package-level object to a callee that writes through that parameter).
 func globalWrites(fn *ssa.Function) []string {
 	var out []string
-	rootGlobal := func(v ssa.Value) *ssa.Global {
-		for i := 0; i < 10; i++ {
-			switch x := v.(type) {
-			case *ssa.Global:
-				return x
-			case *ssa.FieldAddr:
-				v = x.X
-			case *ssa.IndexAddr:
-				v = x.X
-			case *ssa.UnOp:
-				// a load of a global pointer/map/slice: writes through it modify shared storage
-				if g, ok := x.X.(*ssa.Global); ok {
+	// the package-level variable an address or a slice leads back to: through fields, elements, sub-slices (`g[:]` of a
+	// package-level array is a window onto it), conversions, and either side of a phi
+	var rootGlobalIn func(v ssa.Value, seen map[ssa.Value]bool) *ssa.Global
+	rootGlobalIn = func(v ssa.Value, seen map[ssa.Value]bool) *ssa.Global {
+		if v == nil || seen[v] {
+			return nil
+		}
+		seen[v] = true
+		switch x := v.(type) {
+		case *ssa.Global:
+			return x
+		case *ssa.FieldAddr:
+			return rootGlobalIn(x.X, seen)
+		case *ssa.IndexAddr:
+			return rootGlobalIn(x.X, seen)
+		case *ssa.Slice:
+			return rootGlobalIn(x.X, seen)
+		case *ssa.ChangeType:
+			return rootGlobalIn(x.X, seen)
+		case *ssa.Convert:
+			return rootGlobalIn(x.X, seen)
+		case *ssa.Phi:
+			for _, e := range x.Edges {
+				if g := rootGlobalIn(e, seen); g != nil {
 					return g
 				}
-				return nil
-			default:
-				return nil
 			}
+			return nil
+		case *ssa.UnOp:
+			// a load of a global pointer/map/slice: writes through it modify shared storage
+			if g, ok := x.X.(*ssa.Global); ok {
+				return g
+			}
+			return nil
 		}
 		return nil
 	}
+	rootGlobal := func(v ssa.Value) *ssa.Global { return rootGlobalIn(v, map[ssa.Value]bool{}) }
 	for _, b := range fn.Blocks {
 		for _, ins := range b.Instrs {
 			var g *ssa.Global
